@@ -68,25 +68,39 @@ def parseKind : String → Option Kind
   | "lr1" => some .lr1
   | _ => none
 
-def mkSym (g : SGrammar) (w : String) : Sy := if g.nonterms.contains w then Sym.nonterm w else Sym.term w
-
 def dropS (n : Nat) (w : String) : String := String.ofList (w.toList.drop n)
 
 def dropEndS (n : Nat) (w : String) : String := String.ofList (w.toList.take (w.toList.length - n))
+
+/-- a terminal that has the name of a non-terminal is spelled `'N` in case files -/
+def unq (w : String) : String := if w.startsWith "'" then dropS 1 w else w
+
+def unqSym : Sy → Sy
+  | .term t => .term (unq t)
+  | s => s
+
+/-- the grammar the Model works on: quotes stripped from terminal names -/
+def unqG (g : SGrammar) : SGrammar :=
+  { g with terms := g.terms.map unq, prods := g.prods.map fun p => { p with body := p.body.map unqSym } }
+
+def mkSym (g : SGrammar) (w : String) : Sy := if g.nonterms.contains w then Sym.nonterm w else Sym.term (unq w)
 
 /-- `[Head:X,Y]` -/
 def parseProdWord (g : SGrammar) (w : String) : Option Pr :=
   if w.startsWith "[" && w.endsWith "]" then
     let inner := dropEndS 1 (dropS 1 w)
+    -- split at the first colon: the head has none, the body may contain the terminal ":"
     match inner.splitOn ":" with
-    | [h, b] => some { head := h, body := ((b.splitOn ",").filter (· ≠ "")).map (mkSym g) }
+    | h :: b1 :: bs =>
+      let b := ":".intercalate (b1 :: bs)
+      some { head := h, body := ((b.splitOn ",").filter (· ≠ "")).map (mkSym g) }
     | _ => none
   else none
 
 def parseHandle (g : SGrammar) (w : String) : Handle :=
   match parseProdWord g w with
   | some p => .prod p
-  | none => .term w
+  | none => .term (unq w)
 
 def parseAssoc : String → Option Assoc
   | "left" => some .left
@@ -228,7 +242,7 @@ def runCase (_hdr : List String) (ops : List String) : List String := Id.run do
       match parseKind k with
       | some k =>
         if !validGrammar st.g then out := out.push "ok invalid-grammar" else
-        let (s, b) := runBuild k st.g st.levels
+        let (s, b) := runBuild k (unqG st.g) st.levels
         st := st.set k b
         if s = "panic" || s = "hang" then dead := true
         out := out.push s
@@ -240,33 +254,43 @@ def runCase (_hdr : List String) (ops : List String) : List String := Id.run do
     | ["check", k] =>
       match (parseKind k).bind st.get with
       | some bt =>
-        match Spec.tableCheck st.g bt.built with
+        match Spec.tableCheck (unqG st.g) bt.built with
         | none =>
           -- a conflict-free table must also pass the check `C11_complete_validated` rests on
           let kd := (parseKind k).getD .lr1
-          if Spec.chkConflictFree bt.built.table && !Spec.completeOKFor kd st.g bt.built then
+          if Spec.chkConflictFree bt.built.table && !Spec.completeOKFor kd (unqG st.g) bt.built then
             out := out.push "ok invalid completeness-validator"
           else out := out.push "ok valid"
         | some why => out := out.push ("ok invalid " ++ why)
       | none => out := out.push "ok no-table"
+    | ["chain"] =>
+      -- the per-run certificate of `C11_chain_validated` (tables built without precedence levels)
+      match st.slr, st.lalr, st.lr1 with
+      | some a, some b, some c =>
+        if !st.levels.isEmpty then out := out.push "ok no-table"
+        else if !Spec.chainCert a.built b.built then out := out.push "ok chain-broken slr/lalr"
+        else if !Spec.chainCert b.built c.built then out := out.push "ok chain-broken lalr/lr1"
+        else out := out.push "ok chain"
+      | _, _, _ => out := out.push "ok no-table"
     | "parse" :: k :: w =>
       match parseKind k with
       | some k =>
-        let s := runParse st k w false
+        let s := runParse st k (w.map unq) false
         if s = "panic" || s = "hang" then dead := true
         out := out.push s
       | none => out := out.push "bad-op"
     | "ast" :: k :: w =>
       match parseKind k with
       | some k =>
-        let s := runParse st k w true
+        let s := runParse st k (w.map unq) true
         if s = "panic" || s = "hang" then dead := true
         out := out.push s
       | none => out := out.push "bad-op"
     | "resolve" :: rest =>
       let (l, r) := splitBar rest
       match l, r.mapM (parseAction st.g) with
-      | [a], some acts =>
+      | [a0], some acts =>
+        let a := unq a0
         if acts.length < 2 || acts.eraseDups.length ≠ acts.length then out := out.push "bad-op"
         else if !levelsOK st.levels then out := out.push "ok error"     -- `ResolveConflicts` stops at `Verify`
         else
@@ -279,7 +303,8 @@ def runCase (_hdr : List String) (ops : List String) : List String := Id.run do
     | "compare" :: rest =>
       let (l, r) := splitBar rest
       match l, r.mapM (parseAction st.g) with
-      | [a], some [x, y] =>
+      | [a0], some [x, y] =>
+        let a := unq a0
         match handleOfAction a x, handleOfAction a y with
         | some hx, some hy =>
           match compareAH st.levels (x, hx) (y, hy) with
@@ -288,7 +313,7 @@ def runCase (_hdr : List String) (ops : List String) : List String := Id.run do
         | _, _ => out := out.push "bad-op"
       | _, _ => out := out.push "bad-op"
     | "climb" :: w =>
-      match Spec.climb st.levels w with
+      match Spec.climb st.levels (w.map unq) with
       | some t => out := out.push ("ok " ++ Spec.showExpr t)
       | none => out := out.push "ok reject"
     | _ => out := out.push "bad-op"
